@@ -111,6 +111,93 @@ func checkHandoffValues(p *core.Prog, r *core.Report) {
 			aboveFloorEdges = append(aboveFloorEdges, core.Edge{From: ifi.Block(), Idx: 1})
 		}
 	})
+	// a helper of the package that rounds to a boundary: every success return of h yields a floor / ceiling of one of its
+	// parameters by the parameter that receives the segment size
+	helperBoundary := func(call *ssa.Call) bool {
+		h := core.StaticFn(call.Common())
+		if h == nil || h.Blocks == nil || h.Pkg != fn.Pkg {
+			return false
+		}
+		var hSeg *ssa.Parameter
+		for i, a := range call.Call.Args {
+			if a == ssa.Value(segP) && i < len(h.Params) {
+				hSeg = h.Params[i]
+			}
+		}
+		if hSeg == nil {
+			return false
+		}
+		hRem := func(v, of ssa.Value) bool {
+			bo, ok := v.(*ssa.BinOp)
+			return ok && bo.Op == token.REM && bo.Y == ssa.Value(hSeg) && (of == nil || sameExpr(bo.X, of, 3))
+		}
+		hFloor := func(v ssa.Value) (ssa.Value, bool) {
+			bo, ok := v.(*ssa.BinOp)
+			if !ok || bo.Op != token.SUB || !hRem(bo.Y, bo.X) {
+				return nil, false
+			}
+			return bo.X, true
+		}
+		var hClass func(v ssa.Value, depth int) bool
+		hClass = func(v ssa.Value, depth int) bool {
+			v = core.ResolveCell(v)
+			if _, ok := hFloor(v); ok {
+				return true
+			}
+			ph, ok := v.(*ssa.Phi)
+			if !ok || depth == 0 {
+				return false
+			}
+			if len(ph.Edges) == 2 {
+				for i := 0; i < 2; i++ {
+					x, other := ph.Edges[i], ph.Edges[1-i]
+					add, ok := other.(*ssa.BinOp)
+					if !ok || add.Op != token.ADD || add.Y != ssa.Value(hSeg) {
+						continue
+					}
+					base, ok := hFloor(add.X)
+					if !ok || !sameExpr(base, x, 3) {
+						continue
+					}
+					// x arrives with a zero remainder: walk back from the phi's predecessor to the remainder test
+					for b := ph.Block().Preds[i]; b != nil; {
+						ifi, isIf := b.Instrs[len(b.Instrs)-1].(*ssa.If)
+						if isIf {
+							c, neg := core.StripNot(ifi.Cond)
+							if bo, ok := c.(*ssa.BinOp); ok && (bo.Op == token.NEQ || bo.Op == token.EQL) && hRem(bo.X, x) && isZeroConst(bo.Y) {
+								zeroIdx := 1
+								if (bo.Op == token.EQL) != neg {
+									zeroIdx = 0
+								}
+								if b.Succs[zeroIdx] == ph.Block() {
+									return true
+								}
+							}
+						}
+						break
+					}
+				}
+			}
+			for _, e := range ph.Edges {
+				if !hClass(e, depth-1) {
+					return false
+				}
+			}
+			return true
+		}
+		nRet, okAll := 0, true
+		core.Instrs(h, func(in ssa.Instruction) {
+			rt, ok := in.(*ssa.Return)
+			if !ok || !core.ReturnsNilError(rt) {
+				return
+			}
+			nRet++
+			if !hClass(rt.Results[0], 3) {
+				okAll = false
+			}
+		})
+		return nRet > 0 && okAll
+	}
 	n := 0
 	core.Instrs(fn, func(in ssa.Instruction) {
 		rt, ok := in.(*ssa.Return)
@@ -130,6 +217,14 @@ func checkHandoffValues(p *core.Prog, r *core.Report) {
 		classify = func(v ssa.Value, depth int) string {
 			v = core.ResolveCell(v)
 			if _, ok := isFloor(v); ok {
+				return "boundary"
+			}
+			if ex, ok := v.(*ssa.Extract); ok && ex.Index == 0 {
+				if hc, ok := ex.Tuple.(*ssa.Call); ok && helperBoundary(hc) {
+					return "boundary"
+				}
+			}
+			if hc, ok := v.(*ssa.Call); ok && helperBoundary(hc) {
 				return "boundary"
 			}
 			if v == ssa.Value(startP) {
